@@ -12,6 +12,13 @@
 (*         switch (fallthrough, default positions), try/catch/finally,     *)
 (*         labelled blocks and loops, declarations followed by one use in  *)
 (*         each operand position, typeof guards, optional chains           *)
+(*  "cx"   CONTEXT x OPERAND-KIND pairs: 30 one-hole contexts x every      *)
+(*         operator class as the operand, literal slots over a typed       *)
+(*         table; a covering sample (every pair) + a seeded share of the   *)
+(*         full product                                                    *)
+(*  "xc"   constants bound OUTSIDE the function (another module's const,   *)
+(*         an enum member, a define key) meeting side-effecting operands   *)
+(*         in the same contexts                                            *)
 (*  "rnd"  a SEEDED slice of the expression trees of depth <= Depth over   *)
 (*         all operators: the grammar derivation is driven by a            *)
 (*         Wichmann-Hill generator seeded with (Seed, i)                   *)
@@ -277,6 +284,220 @@ SkChain(u_) ==
         << SRet(ELog("??", A, EProbe(1))) >>, << SRet(ECond(EBin("!=", A, ELit(Null)), A, EProbe(1))) >>,
         << SRet(ECond(A, A, EProbe(1))) >>, << SRet(ECond(A, EProbe(1), A)) >>, << SRet(ECond(EUn("!", A), EProbe(1), A)) >>}
 
+
+(* ------------------------------------------------------------------ *)
+(* "cx": CONTEXT x OPERAND-KIND family.                                *)
+(* The minifier's peephole rules are keyed on pairs (outer operator    *)
+(* context, inner operator kind) through helper predicates (known      *)
+(* primitive type / truthiness / nullishness of the operand, "can be   *)
+(* removed if unused", "values look the same", ...).  Every such pair  *)
+(* is inhabited here: NCtx contexts with one hole x every operator     *)
+(* class of JsSem as the operand, with literal slots ranging over a    *)
+(* typed literal table so that "type of the operand's literal equals / *)
+(* differs from the type the context asks for" both occur; the         *)
+(* environments (orthogonal array over CxGrid) make every target and   *)
+(* operand value short-circuit and not short-circuit.                  *)
+(* ------------------------------------------------------------------ *)
+GC13 == << Undef, Null, True, False, PZero, NZero, Num(1), NaN, Str(<<>>), Str(<<97>>),
+           Obj(2), Big(1, <<1>>), Obj(4) >>
+GC23 == << Undef, Null, True, False, PZero, NZero, Num(1), Num(-1), Num(2), NaN, PInf, NInf,
+           IntV(1, P2_31), IntV(1, NSub(P2_32, One)), Obj(4),
+           Str(<<>>), Str(<<48>>), Str(<<97>>), Str(<<49, 48>>), Obj(1), Obj(2), Obj(3), Big(1, <<1>>) >>
+CxGrid == IF Q = 13 THEN GC13 ELSE GC23
+ASSUME Len(CxGrid) = Q /\ CxGrid[1] = Undef
+EnvOfG(grid, i, j) ==
+  LET r == RowIdx(i, j)
+  IN [pv |-> [n \in 1..NProbes |-> grid[r.p[n]]], a |-> grid[r.a], b |-> grid[r.b],
+      g  |-> IF r.g = 0 THEN Undecl ELSE grid[r.g],
+      ok |-> IF r.ok = 0 THEN Absent ELSE grid[r.ok]]
+
+(* typed literal table: one truthy and one falsy literal per primitive type, both nullish values *)
+TL   == << Num(1), PZero, True, False, Str(<<97>>), Str(<<>>), Null, Undef >>
+NTL  == 8
+TyOf(i) == CASE i \in {1, 2} -> 1 [] i \in {3, 4} -> 2 [] i \in {5, 6} -> 3 [] i = 7 -> 4 [] i = 8 -> 5
+Sib(i)  == IF i % 2 = 1 THEN i + 1 ELSE i - 1          \* same type, other truthiness (null <-> undefined)
+WrapL(j) == ((j - 1) % NTL) + 1
+DiffTy(i, h) ==                                         \* a seeded literal index of ANOTHER type than i
+  LET j0 == WrapL(i + 1 + (h % 7))
+      j1 == WrapL(j0 + 1)
+  IN IF TyOf(j0) # TyOf(i) THEN j0 ELSE IF TyOf(j1) # TyOf(i) THEN j1 ELSE WrapL(j0 + 2)
+ASSUME \A i \in 1..NTL, h \in 0..20 : TyOf(DiffTy(i, h)) # TyOf(i)
+FlipTruth(i, h) == IF i <= 6 THEN Sib(i) ELSE 1 + 2 * (h % 3)     \* a literal of the other truthiness
+
+SeqMap(F(_), sq) == [i \in 1..Len(sq) |-> F(sq[i])]
+
+(* contexts: a program with one hole e; L = the context's literal (contexts 1-4, 24, 26 only) *)
+NCtx == 30
+CtxHasLit(c) == c \in {1, 2, 3, 4, 24, 26}
+CtxProg(c, e, L) ==
+  CASE c = 1  -> << SRet(EBin("===", e, L)) >>
+    [] c = 2  -> << SRet(EBin("!==", e, L)) >>
+    [] c = 3  -> << SRet(EBin("==", e, L)) >>
+    [] c = 4  -> << SRet(EBin("!=", e, L)) >>
+    [] c = 5  -> << SRet(EBin("+", ELit(Str(<<>>)), e)) >>
+    [] c = 6  -> << SRet(EBin("+", e, ELit(Str(<<>>)))) >>
+    [] c = 7  -> << SRet(ETpl("", e)) >>
+    [] c = 8  -> << SRet(EUn("!", EUn("!", e))) >>
+    [] c = 9  -> << SRet(EUn("!", e)) >>
+    [] c = 10 -> << SRet(EUn("typeof", e)) >>
+    [] c = 11 -> << SRet(ECond(e, EProbe(8), EProbe(9))) >>
+    [] c = 12 -> << SIfElse(e, SExpr(EProbe(8)), SExpr(EProbe(9))) >>
+    [] c = 13 -> << SRet(ELog("&&", e, EProbe(8))) >>
+    [] c = 14 -> << SRet(ELog("||", e, EProbe(8))) >>
+    [] c = 15 -> << SRet(ELog("??", e, EProbe(8))) >>
+    [] c = 16 -> << SExpr(e), SRet(EProbe(8)) >>
+    [] c = 17 -> << SRet(EUn("-", e)) >>
+    [] c = 18 -> << SRet(EUn("+", e)) >>
+    [] c = 19 -> << SRet(EUn("void", e)) >>
+    [] c = 20 -> << SRet(EComma(e, EProbe(8))) >>
+    [] c = 21 -> << SRet(e) >>
+    [] c = 22 -> << SExpr(EProbeA(8, <<e>>)) >>
+    [] c = 23 -> << SExpr(EProbeA(8, <<ESpread1(e)>>)) >>
+    [] c = 24 -> << SSwitch(e, << SCase(L, << SExpr(EProbe(8)), SBreak("") >>), SDefault(<< SExpr(EProbe(9)) >>) >>) >>
+    [] c = 25 -> << SExpr(ETpl("", e)), SRet(EProbe(8)) >>
+    [] c = 26 -> << SRet(EBin("==", L, e)) >>
+    [] c = 27 -> << SWhile(e, SBlock(<< SExpr(EProbe(8)), SBreak("") >>)), SRet(EProbe(9)) >>
+    [] c = 28 -> << SDecl(2, "y", e), SRet(EProbeA(8, <<EVar("y")>>)) >>
+    [] c = 29 -> << SRet(ECond(e, ELit(True), ELit(False))) >>
+    [] c = 30 -> << SExpr(ELog("&&", e, EProbe(8))), SRet(EProbe(9)) >>
+(* the literal type a context without a literal of its own "asks for" (0: none) *)
+CtxNatTy(c) == CASE c \in {5, 6, 7, 25} -> 3
+                 [] c \in {8, 9, 11, 12, 13, 14, 27, 29, 30} -> 2
+                 [] c \in {17, 18} -> 1
+                 [] c = 15 -> 4
+                 [] OTHER -> 0
+
+(* operand kinds.  full = every operator; ~full = one seeded operator per class (the classes of the
+   minifier's type knowledge: string-or-number +, numeric, int32, uint32, relational, loose/strict equality) *)
+BinClasses == << <<"+">>, <<"-", "*", "/", "%", "**">>, <<"&", "|", "^", "<<", ">>">>, <<">>>">>,
+                 <<"<", ">", "<=", ">=">>, <<"==", "!=">>, <<"===", "!==">> >>
+CmpClasses == << <<"+=">>, <<"-=", "*=", "/=", "%=", "**=">>, <<"&=", "|=", "^=", "<<=", ">>=">>, <<">>>=">> >>
+PickPer(cls, sd) == [i \in 1..Len(cls) |-> cls[i][((sd + i) % Len(cls[i])) + 1]]
+CxBinOps(full, sd) == IF full THEN BinOpSeq ELSE PickPer(BinClasses, sd)
+CxCmpOps(full, sd) == IF full THEN << "+=", "-=", "*=", "/=", "%=", "**=", "<<=", ">>=", ">>>=", "&=", "|=", "^=" >>
+                      ELSE PickPer(CmpClasses, sd)
+CxUnA(full, sd)    == IF full THEN UnOpSeq ELSE << UnOpSeq[(sd % 6) + 1], UnOpSeq[((sd + 3) % 6) + 1] >>
+LogAsgSeq == << "||=", "&&=", "??=" >>
+
+CxShapes(full, sd, lk) ==
+  LET L  == ELit(TL[lk])
+      Ls == ELit(TL[Sib(lk)])
+      Lo == ELit(TL[DiffTy(lk, sd)])
+      P1 == EProbe(1)  P2 == EProbe(2)  P3 == EProbe(3)
+      OK == EMem(ERec)
+  IN    << L, P1, A, OK, EGlob, EUn("typeof", EGlob) >>
+     \o SeqMap(LAMBDA op : EUn(op, P1), UnOpSeq)
+     \o SeqMap(LAMBDA op : EUn(op, A), CxUnA(full, sd))
+     \o << EUn("!", L), EUn("-", L), EUn("typeof", L), EUn("void", L) >>
+     \o SeqMap(LAMBDA op : EBin(op, P1, P2), CxBinOps(full, sd))
+     \o SeqMap(LAMBDA op : EBin(op, A, L), CxBinOps(full, sd))
+     \o << EBin("+", L, A), EBin("===", L, A), EBin("==", L, A), EBin("<", L, A) >>
+     \o SeqMap(LAMBDA op : ELog(op, P1, L), LogOpSeq)
+     \o SeqMap(LAMBDA op : ELog(op, L, P1), LogOpSeq)
+     \o SeqMap(LAMBDA op : ELog(op, P1, P2), LogOpSeq)
+     \o (IF full THEN SeqMap(LAMBDA op : ELog(op, A, P2), LogOpSeq) \o SeqMap(LAMBDA op : ELog(op, OK, L), LogOpSeq) ELSE <<>>)
+     \o << ECond(P1, L, L), ECond(P1, L, Ls), ECond(P1, L, Lo), ECond(P1, L, A), ECond(A, P2, P3), ECond(L, P2, P3) >>
+     \o << EComma(P1, L), EComma(P1, A), EComma(L, P1), EComma(A, L) >>
+     \o SeqMap(LAMBDA op : EAsg(op, OK, L), << "=" >> \o LogAsgSeq \o CxCmpOps(full, sd))
+     \o SeqMap(LAMBDA op : EAsg(op, A, L), << "=" >> \o LogAsgSeq \o (IF full THEN CxCmpOps(full, sd) ELSE <<>>))
+     \o SeqMap(LAMBDA op : EAsg(op, OK, P2), << "=" >> \o LogAsgSeq)
+     \o SeqMap(LAMBDA op : EAsg(op, X, L), LogAsgSeq)
+     \o << EMem(P1), EMem(A), EOptMem(A), EOptMem(P1), EIdx(ERec, P1), EIdx(ERec, L), EMem(L), EOptMem(L) >>
+     \o << EDel(OK), EDel(EOptMem(A)), EDel(P1) >>
+     \o << EProbeA(1, <<L>>), EHCall("f", <<P1>>), EHCall("f", <<L>>), EProbeA(1, <<ESpread1(L)>>) >>
+     \o << ETpl("", P1), ETpl("", A), ETpl("", L), ETpl("a", A), ETpl("a", L) >>
+     \o << EUn("!", EUn("!", A)), EUn("!", EBin("===", A, L)), EUn("!", EBin("<", P1, P2)) >>
+     \* typeof comparisons and operands that "look the same"
+     \o << EBin("===", EUn("typeof", A), ELit(Str(CU("number")))), EBin("!=", EUn("typeof", P1), ELit(Str(CU("undefined")))),
+           EBin("==", EUn("typeof", A), ELit(Str(CU("object")))),
+           EBin("===", A, A), EBin("!==", OK, OK), ELog("??", A, A), ECond(A, A, P2), ELog("||", OK, OK) >>
+
+(* descriptor of one program of the family, packed in an integer: context, shape, the shape's
+   literal (0: the shape has no literal slot), the context's literal (0: none) *)
+CxEnc(c, s, lk, lc) == ((c * 200 + s) * 10 + lk) * 10 + lc
+CxC(d)  == d \div 20000
+CxS(d)  == (d \div 100) % 200
+CxLk(d) == (d \div 10) % 10
+CxLc(d) == d % 10
+CxH(sd, c, s, n) == (RngOut(RngInit(sd + 101 * n, c * 200 + s)) % NTL) + 1      \* a seeded literal index
+
+CxProgOf(full, sd, d) ==
+  LET lk == IF CxLk(d) = 0 THEN 1 ELSE CxLk(d)
+      lc == IF CxLc(d) = 0 THEN 1 ELSE CxLc(d)
+  IN CtxProg(CxC(d), CxShapes(full, sd, lk)[CxS(d)], ELit(TL[lc]))
+
+(* The COVERING sample (always included; all of the quick tier): every (context, shape) pair once
+   with the literal types agreeing (the context's own literal, or the type the context asks for),
+   and for a seeded third of the pairs once more with the types differing.
+   The full product: every (context, shape, shape literal); the context literal = the shape's
+   literal and one seeded literal of another type (shapes without a slot: every context literal).
+   mod = 0: the covering sample only; mod >= 1: plus the seeded 1/mod of the full product. *)
+CxTake(sd, mod, d) == mod # 0 /\ (mod = 1 \/ RngOut(RngInit(sd + 3, d)) % mod = 0)
+CxDescs(full, sd, mod) ==
+  LET s1 == CxShapes(full, sd, 1)
+      s2 == CxShapes(full, sd, 2)
+      NS == Len(s1)
+      Slot(s) == s1[s] # s2[s]
+      OneP(c, s) ==
+        LET h1 == CxH(sd, c, s, 1)  h2 == CxH(sd, c, s, 2)
+            nat == CtxNatTy(c)
+            lkA == IF CtxHasLit(c) THEN (IF h2 % 2 = 0 THEN h1 ELSE Sib(h1))
+                   ELSE IF nat = 4 THEN 7 + (h1 % 2) ELSE IF nat # 0 THEN 2 * nat - (h1 % 2) ELSE h1
+            more == (c + s + sd) % 3 = 0
+            cover == IF Slot(s) THEN IF CtxHasLit(c) THEN {CxEnc(c, s, lkA, h1)} \cup (IF more THEN {CxEnc(c, s, DiffTy(h1, h2), h1)} ELSE {})
+                                     ELSE {CxEnc(c, s, lkA, 0)} \cup (IF more THEN {CxEnc(c, s, DiffTy(lkA, h2), 0)} ELSE {})
+                     ELSE IF CtxHasLit(c) THEN {CxEnc(c, s, 0, h1)} ELSE {CxEnc(c, s, 0, 0)}
+            all == IF Slot(s) THEN IF CtxHasLit(c) THEN UNION {{CxEnc(c, s, lk, lc) : lc \in {lk, DiffTy(lk, h1)}} : lk \in 1..NTL}
+                                   ELSE {CxEnc(c, s, lk, 0) : lk \in 1..NTL}
+                   ELSE IF CtxHasLit(c) THEN {CxEnc(c, s, 0, lc) : lc \in 1..NTL} ELSE {CxEnc(c, s, 0, 0)}
+        IN cover \cup (IF mod = 0 THEN {} ELSE {d \in all : CxTake(sd, mod, d)})
+  IN UNION {OneP(c, s) : c \in 1..NCtx, s \in 1..NS}
+CxPairs(ds) == {<<CxC(d), CxS(d)>> : d \in ds}
+
+(* ------------------------------------------------------------------ *)
+(* "xc": OUTER-CONSTANT family.  The constants K* are bindings that    *)
+(* live outside the function (ECConst): the harness realises them as   *)
+(* `const` exports of ANOTHER module (bundled: cross-module inlining   *)
+(* and print-time folding), as members of a TypeScript enum of another *)
+(* file, and as `define` keys.  In every realisation the language (and *)
+(* the definition of define) gives the reference the constant's value. *)
+(* Each constant meets a side-effecting operand in every context.      *)
+(* ------------------------------------------------------------------ *)
+CNames == << "K1", "K0", "KT", "KF", "KA", "KE", "KN", "KU" >>
+KC(i)  == ECConst(CNames[i], TL[i])
+XcShapes(sd, ck) ==
+  LET KK  == KC(ck)  KS == KC(Sib(ck))  KO == KC(DiffTy(ck, sd))
+      P1 == EProbe(1)  P2 == EProbe(2)  P3 == EProbe(3)
+      OK == EMem(ERec)
+  IN << KK, EUn("!", KK), EUn("typeof", KK), EUn("-", KK), EUn("+", KK), EUn("void", KK),
+        ELog("&&", P1, KK), ELog("||", P1, KK), ELog("??", P1, KK),
+        ELog("&&", KK, P1), ELog("||", KK, P1), ELog("??", KK, P1),
+        EUn("!", ELog("&&", P1, KK)), EUn("!", ELog("||", P1, KK)),
+        EComma(P1, KK), EComma(KK, P1),
+        ECond(KK, P1, P2), ECond(P1, KK, KS), ECond(P1, KK, KO), ECond(P1, KK, KK),
+        EBin("+", KK, P1), EBin("+", P1, KK), EBin("===", KK, P1), EBin("==", P1, KK), EBin("<", KK, P1),
+        EBin("===", A, KK), EBin("==", A, KK), EBin("+", A, KK),
+        EBin("+", KK, KS), EBin("+", KK, KO), EBin("===", KK, KS), EBin("==", KK, KO), EBin("<", KK, KO), EBin("|", KK, KO),
+        ELog("&&", KK, KO), ELog("||", KK, KO), ELog("??", KK, KO), ECond(KK, KS, P1),
+        EAsg("=", OK, KK), EAsg("||=", OK, KK), EAsg("??=", A, KK), EAsg("+=", OK, KK),
+        EMem(KK), EOptMem(KK), EIdx(ERec, KK),
+        ETpl("", KK), ETpl("a", KK), EProbeA(1, <<KK>>), EHCall("f", <<KK>>),
+        ELog("&&", ELog("||", P1, KK), P2), ECond(ELog("&&", P1, KK), KS, P2) >>
+XcProgOf(sd, d) ==
+  CtxProg(CxC(d), XcShapes(sd, CxLk(d))[CxS(d)], IF CxLc(d) = 0 THEN ELit(TL[1]) ELSE KC(CxLc(d)))
+(* contexts inside one expression: there a substituted constant can enable a second rewrite *)
+XcExprCtx == {1, 2, 3, 4, 8, 9, 11, 13, 14, 15, 29}
+XcDescs(sd, mod) ==
+  LET NS == Len(XcShapes(sd, 1))
+      OneP(c, s) ==
+        LET h1 == CxH(sd, c, s, 3)  h2 == CxH(sd, c, s, 4)
+            lcs(ck) == IF CtxHasLit(c) THEN {ck, DiffTy(ck, h2)} ELSE {0}
+            lc1(ck) == IF CtxHasLit(c) THEN (IF h2 % 2 = 0 THEN ck ELSE DiffTy(ck, h2)) ELSE 0
+            cover == {CxEnc(c, s, h1, lc1(h1))}
+                     \cup (IF c \in XcExprCtx THEN {CxEnc(c, s, FlipTruth(h1, h2), lc1(FlipTruth(h1, h2)))} ELSE {})
+            all == UNION {{CxEnc(c, s, ck, lc) : lc \in lcs(ck)} : ck \in 1..NTL}
+        IN cover \cup (IF mod = 0 THEN {} ELSE {d \in all : CxTake(sd, mod, d)})
+  IN UNION {OneP(c, s) : c \in 1..NCtx, s \in 1..NS}
 
 (* ------------------------------------------------------------------ *)
 (* define / pure / drop / drop-labels                                  *)
